@@ -449,7 +449,7 @@ func judgeNotations(w tyWalker, fn string, srcTy, dstTy int, mem []member, lines
 		} else {
 			want = strings.Join(n.Args[1:], " ")
 		}
-		countRule("C06:"+n.Kind+"-honoured")
+		countRule("C06:" + n.Kind + "-honoured")
 		honoured := false
 		var covering *BodyLine
 		for i := range lines {
